@@ -531,6 +531,790 @@ Theorem window_inv_init v cl c ops :
   lenN (inflight (run_from (sink_init v cl c) ops)) <= cap (run_from (sink_init v cl c) ops).
 Proof. apply window_inv. cbn. rewrite lenN_nil. lia. Qed.
 
-Print Assumptions window_inv.
-Print Assumptions push_only_when_room.
-Print Assumptions outstanding_on_wire.
+
+(* ================================================================ C06: acknowledgements *)
+(* which steps can complete a one-shot channel *)
+Definition nfill (chs chs' : list chan) (c : nat) : Prop :=
+  c_st (ch_get chs' c) = CFilled -> ch_get chs' c = ch_get chs c.
+
+Lemma nfill_refl chs c : nfill chs chs c. Proof. intros _. reflexivity. Qed.
+Lemma nfill_trans a b d c : nfill a b c -> nfill b d c -> nfill a d c.
+Proof. unfold nfill. intros H1 H2 H. pose proof (H2 H) as E. rewrite E in H. rewrite E. now apply H1. Qed.
+Lemma nfill_eq a b c : ch_get b c = ch_get a c -> nfill a b c.
+Proof. intros E _. exact E. Qed.
+Lemma nfill_drop_tx chs c0 c : nfill chs (ch_drop_tx chs c0) c.
+Proof.
+  unfold nfill. rewrite ch_drop_tx_get. destruct (Nat.eqb c0 c); auto. unfold dtx.
+  destruct (c_st (ch_get chs c)) eqn:E; cbn [c_st]; rewrite ?E; auto; discriminate.
+Qed.
+Lemma nfill_fold_dtx l : forall chs c, nfill chs (fold_left ch_drop_tx l chs) c.
+Proof.
+  induction l as [|c0 l IH]; intros chs c; cbn [fold_left]; [apply nfill_refl|].
+  eapply nfill_trans; [apply nfill_drop_tx|apply IH].
+Qed.
+Lemma nfill_send chs c0 v c : c <> c0 -> nfill chs (fst (ch_send chs c0 v)) c.
+Proof. intros N. apply nfill_eq. rewrite ch_send_get. destruct (Nat.eqb_spec c0 c); [congruence|reflexivity]. Qed.
+Lemma nfill_app chs x c : (c < length chs)%nat -> nfill chs (chs ++ [x]) c.
+Proof. intros L. apply nfill_eq. now apply ch_get_app_old. Qed.
+Lemma nfill_wake chs n ws c : NoDup ws -> ~ In c ws -> nfill chs (fst (wake_go chs n ws)) c.
+Proof.
+  intros ND N. destruct (wake_go_spec ws chs n ND) as (p & w & W1 & W2 & W3 & _). apply nfill_eq. rewrite W3.
+  destruct (existsb (Nat.eqb c) w) eqn:E; auto. apply existsb_eqb_In in E. apply W2 in E as [E _].
+  exfalso. apply N. rewrite W1. apply in_or_app. now left.
+Qed.
+Lemma nfill_sig x chs chs' c : sig_only x chs chs' -> sig_of x <> Some c -> nfill chs chs' c.
+Proof. intros [_ G] N. apply nfill_eq. auto. Qed.
+
+(* drop_rx keeps the sender side: the state and value of every channel *)
+Definition same_tx (a b : chan) : Prop := c_st b = c_st a /\ c_val b = c_val a.
+Definition nfill' (chs chs' : list chan) (c : nat) : Prop :=
+  c_st (ch_get chs' c) = CFilled -> same_tx (ch_get chs c) (ch_get chs' c).
+Lemma nfill_weak a b c : nfill a b c -> nfill' a b c.
+Proof. unfold nfill, nfill', same_tx. intros H F. rewrite (H F). auto. Qed.
+Lemma nfill'_refl a c : nfill' a a c. Proof. apply nfill_weak, nfill_refl. Qed.
+Lemma nfill'_trans a b d c : nfill' a b c -> nfill' b d c -> nfill' a d c.
+Proof.
+  unfold nfill', same_tx. intros H1 H2 H. destruct (H2 H) as [A B]. rewrite A, B. apply H1. congruence.
+Qed.
+Lemma nfill'_drop_rx chs c0 c : nfill' chs (ch_drop_rx chs c0) c.
+Proof. unfold nfill', same_tx. rewrite ch_drop_rx_get. destruct (Nat.eqb c0 c); auto. Qed.
+
+Definition nf (s s' : sink) (c : nat) : Prop := nfill' (chans s) (chans s') c.
+
+Lemma nf_send_res ks s x s1 st c :
+  send_res s x s1 st -> sm_ok ks s x -> (c < length (chans s))%nat -> kof ks c <> Some KS -> nf s s1 c.
+Proof.
+  intros R M L K. assert (NS : sig_of x <> Some c).
+  { unfold sig_of, sm_ok in *. destruct (tstream x) as [sm|]; [|discriminate]. destruct M as [M _].
+    intros E. injection E as E. subst c. contradiction. }
+  unfold nf. apply nfill_weak. destruct R as [s1 e N | s1 Hio CW P | s1 id Hio L' W P].
+  - destruct N as (_&_&_&_&_&_&_&_&_&_&_&_&_&_&_&N). eapply nfill_sig; eauto.
+  - unfold parked in P. subst. sk. now apply nfill_app.
+  - destruct P as (_&_&_&_&_&_&_&_&_&_&_&_&_&P&_). eapply nfill_trans; [apply nfill_app; eauto|eapply nfill_sig; eauto].
+Qed.
+
+Lemma nf_refl s c : nf s s c. Proof. apply nfill'_refl. Qed.
+Lemma nf_trans a b d c : nf a b c -> nf b d c -> nf a d c. Proof. apply nfill'_trans. Qed.
+Lemma nf_eq s s' c : chans s' = chans s -> nf s s' c. Proof. unfold nf. intros ->. apply nfill'_refl. Qed.
+
+Ltac nfe := first [apply nf_refl | apply nf_eq; reflexivity].
+
+Lemma nf_clear s c : nf s (clear_queues s) c.
+Proof. rewrite clear_queues_eq. unfold nf. sk. apply nfill_weak. unfold cleared. apply nfill_fold_dtx. Qed.
+Lemma nf_close s c : nf s (do_close s) c.
+Proof.
+  destruct (do_close_spec s) as (s2 & -> & C). eapply nf_trans; [|apply nf_clear].
+  apply nf_eq. apply C.
+Qed.
+Lemma nf_force_close s c : nf s (do_force_close s) c.
+Proof. unfold do_force_close. eapply nf_trans; [|apply nf_clear]. now apply nf_eq. Qed.
+Lemma nf_drop_rx s c0 c : nf s (drop_rx s c0) c.
+Proof. unfold nf, drop_rx. sk. apply nfill'_drop_rx. Qed.
+Lemma nf_wake ks s n c k : inv ks s -> kof ks c = Some k -> k <> KW -> nf s (wake s n) c.
+Proof.
+  intros I K N. rewrite wake_eq. unfold nf. sk. apply nfill_weak. apply nfill_wake; [apply I|].
+  intros H. apply (i_ws _ _ I) in H as [H _]. congruence.
+Qed.
+Lemma nf_drop_sig ks s s0 x c k : sm_ok ks s0 x -> kof ks c = Some k -> k <> KS -> nf s (drop_sig s x) c.
+Proof.
+  intros M K N. unfold nf. apply nfill_weak. eapply nfill_sig; [apply drop_sig_chans|].
+  unfold sig_of, sm_ok in *. destruct (tstream x) as [sm|]; [|discriminate]. destruct M as [M _].
+  intros E. injection E as E. subst c. congruence.
+Qed.
+
+Definition ackch (ks : list ck) (c : nat) : Prop := kof ks c = Some KA \/ kof ks c = Some KC.
+Lemma ackch_ne ks c k : ackch ks c -> k <> KA -> k <> KC -> kof ks c <> Some k.
+Proof. intros [H|H] A B; rewrite H; congruence. Qed.
+
+Lemma nf_start0 ks s k idq size s1 st c :
+  inv ks s -> (c < length (chans s))%nat -> ackch ks c ->
+  send_res (if k =? 7 then set_chans s (chans s ++ [open_ch]) else s) (new_task k idq size (length (chans s))) s1 st ->
+  nf s s1 c.
+Proof.
+  intros I L A R. pose proof (i_len _ _ I) as LK.
+  assert (L0 : (c < length (chans (if (k =? 7)%N then set_chans s (chans s ++ [open_ch]) else s)))%nat).
+  { destruct (k =? 7); sk; auto. rewrite app_length. lia. }
+  assert (K0 : kof (if k =? 7 then ks ++ [KS] else ks) c <> Some KS).
+  { destruct (k =? 7); [|apply ackch_ne; auto; discriminate]. intros H. unfold kof in H. rewrite nth_error_app1 in H by lia.
+    revert H. apply (ackch_ne ks c KS A); discriminate. }
+  pose proof (nf_send_res _ _ _ _ _ c R (new_task_sm ks s k idq size LK) L0 K0) as N.
+  eapply nf_trans; [|exact N].
+  destruct (k =? 7); [|apply nf_refl]. unfold nf. sk. apply nfill_weak. now apply nfill_app.
+Qed.
+
+Lemma nf_start ks s t k idq size c :
+  inv ks s -> (c < length (chans s))%nat -> ackch ks c -> nf s (start_task s t k idq size) c.
+Proof.
+  intros I L A. destruct (find_task t (tasks s)) eqn:F; [unfold start_task; rewrite F; apply nf_refl|].
+  destruct (start_task_spec s t k idq size F) as [ | s1 e K P | e K | s1 K Hio CW P | s0 x s1 st K E0 EX R].
+  - apply nf_refl.
+  - apply nf_eq. sk. apply P.
+  - now apply nf_eq.
+  - unfold parked in P. subst. unfold nf. sk. apply nfill_weak. now apply nfill_app.
+  - subst. change (nf s s1 c). eapply nf_start0; eauto.
+Qed.
+
+Lemma nf_create ks s t k idq size c :
+  inv ks s -> (c < length (chans s))%nat -> ackch ks c -> nf s (create_task s t k idq size) c.
+Proof.
+  intros I L A. destruct (find_task t (tasks s)) eqn:F; [unfold create_task; rewrite F; apply nf_refl|].
+  destruct (create_task_spec s t k idq size F) as [ | K | e K | s1 K Hio CW P | K | s0 x s1 st K E0 EX R].
+  - apply nf_refl.
+  - now apply nf_start with ks.
+  - now apply nf_eq.
+  - unfold parked in P. subst. unfold nf. sk. apply nfill_weak. now apply nfill_app.
+  - now apply nf_eq.
+  - subst. change (nf s s1 c). eapply nf_start0; eauto.
+Qed.
+
+Lemma nf_poll ks s t c :
+  inv ks s -> (c < length (chans s))%nat -> ackch ks c -> nf s (poll_task s t) c.
+Proof.
+  intros I L A. destruct (find_task t (tasks s)) as [x|] eqn:F; [|unfold poll_task; rewrite F; apply nf_refl].
+  assert (H : In (t, x) (tasks s)) by (apply find_task_In; auto; apply I).
+  destruct (i_task _ _ I t x H) as [SO MO].
+  destruct (poll_task_spec s t x F) as (s1 & st & R & ->). change (nf s s1 c).
+  assert (NK : kof ks c <> Some KS) by (apply ackch_ne; auto; discriminate).
+  assert (SR : forall s2 st2, send_res s x s2 st2 -> nf s s2 c) by (intros s2 st2 R2; exact (nf_send_res ks s x s2 st2 c R2 MO L NK)).
+  destruct R; try apply nf_refl; try (eapply SR; eassumption); apply (SR s1 (TDone 0)); now apply SE_fail.
+Qed.
+
+Lemma nf_drop ks s t c : inv ks s -> ackch ks c -> nf s (drop_task s t) c.
+Proof.
+  intros I A. unfold drop_task. destruct (find_task t (tasks s)) as [x|] eqn:F; [|apply nf_refl].
+  assert (H : In (t, x) (tasks s)) by (apply find_task_In; auto; apply I).
+  destruct (i_task _ _ I t x H) as [SO MO].
+  destruct (tst x) as [c0|c0 id|id|c0|c0|e| | |e]; try apply nf_refl; cbv zeta;
+    try (change (nf s (drop_rx s c0) c); apply nf_drop_rx); try (apply nf_eq; reflexivity).
+  change (nf s (drop_sig (drop_rx s c0) x) c). eapply nf_trans; [apply nf_drop_rx|].
+  destruct A as [A|A]; eapply nf_drop_sig; eauto; discriminate.
+Qed.
+
+Lemma nf_release s t c : nf s (release_task s t) c.
+Proof.
+  unfold release_task. destruct (find_task t (tasks s)) as [x|]; [|nfe].
+  destruct (tst x); try nfe. unfold release_publish. destruct (rxm_find _ _) as [c0|]; [|nfe].
+  destruct (enc_packet _ _ _) as [s2 ok] eqn:E. destruct (enc_packet_core _ _ _ _ _ E) as (_&_&_&_&_&_&E7&_).
+  destruct ok; [destruct (poll s2 c0)|]; try (apply nf_eq; exact E7).
+  change (nf s (drop_rx s2 c0) c). eapply nf_trans; [apply nf_eq; exact E7|apply nf_drop_rx].
+Qed.
+
+Lemma nf_drop_receipt s t c : nf s (drop_receipt s t) c.
+Proof.
+  unfold drop_receipt. destruct (find_task t (tasks s)) as [x|]; [|nfe].
+  destruct (tst x); try nfe. unfold release_publish. destruct (rxm_find _ _) as [c0|]; [|nfe].
+  destruct (enc_packet _ _ _) as [s2 ok] eqn:E. destruct (enc_packet_core _ _ _ _ _ E) as (_&_&_&_&_&_&E7&_).
+  change (nf s (drop_rx s2 c0) c). eapply nf_trans; [apply nf_eq; exact E7|apply nf_drop_rx].
+Qed.
+
+Lemma nf_wrb ks s on c : inv ks s -> ackch ks c -> nf s (do_wrb s on) c.
+Proof.
+  intros I A. unfold do_wrb. destruct on; [nfe|].
+  set (s1 := set_wrb s false).
+  assert (I1 : inv ks s1) by (apply inv_core with s; auto).
+  set (s2 := match swait s1 with Some c0 => set_swait (fst (send s1 c0 0)) None | None => s1 end).
+  assert (N2 : nf s s2 c).
+  { unfold s2. destruct (swait s1) as [c0|] eqn:E; [|nfe]. rewrite send_eq. unfold nf. sk.
+    apply nfill_weak, nfill_send. intros ->. apply (i_swait _ _ I) in E. revert E. apply ackch_ne; auto; discriminate. }
+  assert (I2 : inv ks s2).
+  { unfold s2. destruct (swait s1) as [c0|] eqn:E; auto. now apply inv_swait_send. }
+  destruct (_ <? _); auto. eapply nf_trans; [exact N2|].
+  destruct A as [A|A]; eapply nf_wake; eauto; discriminate.
+Qed.
+
+Lemma nf_epp s n c : nf s (fst (fst (encode_publish_payload s n))) c.
+Proof. destruct (epp_cases s n) as [-> | C]; [apply nf_force_close|apply nf_eq; apply C]. Qed.
+
+Lemma nf_chunk_payload s sm srx n c : nf s (fst (chunk_payload s sm srx n)) c.
+Proof. unfold chunk_payload. pose proof (nf_epp s n c) as E. destruct (encode_publish_payload s n) as [[s1 st] more]. exact E. Qed.
+
+Lemma nf_chunk_inprocess s sm srx inp n c : (c < length (chans s))%nat -> nf s (fst (chunk_inprocess s sm srx inp n)) c.
+Proof.
+  intros L. unfold chunk_inprocess. destruct inp; [|nfe]. destruct (is_closed s); [nfe|].
+  destruct (wrb s); [|apply nf_chunk_payload]. unfold new_chan. sk. cbn [fst]. rewrite drop_tx_opt_eq. unfold nf. sk.
+  apply nfill_weak. eapply nfill_trans; [apply nfill_app; eauto|]. destruct (swait s); [apply nfill_drop_tx|apply nfill_refl].
+Qed.
+
+Lemma nf_chunk_signal s sm n c : (c < length (chans s))%nat -> nf s (fst (chunk_signal s sm n)) c.
+Proof. intros L. unfold chunk_signal. destruct (poll _ _); try nfe. now apply nf_chunk_inprocess. Qed.
+
+Lemma nf_chunk s t n c : (c < length (chans s))%nat -> nf s (chunk_task s t n) c.
+Proof.
+  intros L. unfold chunk_task. destruct (find_task t (tasks s)) as [x|]; [|nfe].
+  destruct (tstream x) as [sm|]; [|nfe]. destruct (negb _); [nfe|].
+  assert (G : forall r : sink * stream, nf s (fst r) c -> nf s (let '(s1, sm1) := r in set_tasks s1 (put_task t (with_stream x sm1) (tasks s1))) c).
+  { intros [s1 sm1] H. exact H. }
+  apply G. destruct (pend sm) as [|m|c0 m].
+  - destruct (s_rx sm); [now apply nf_chunk_signal|now apply nf_chunk_inprocess].
+  - now apply nf_chunk_signal.
+  - destruct (poll s c0); try nfe. apply nf_chunk_payload.
+Qed.
+
+Lemma nf_drop_pending s sm c : nf s (fst (drop_pending s sm)) c.
+Proof. unfold drop_pending. destruct (pend sm); cbn [fst]; try nfe; apply nf_drop_rx. Qed.
+
+Lemma nf_drop_chunk s t c : nf s (drop_chunk s t) c.
+Proof.
+  unfold drop_chunk. destruct (find_task t (tasks s)) as [x|]; [|nfe].
+  destruct (tstream x) as [sm|]; [|nfe]. destruct (negb _); [nfe|].
+  pose proof (nf_drop_pending s sm c) as E. destruct (pend sm); [nfe| |]; destruct (drop_pending s sm); exact E.
+Qed.
+
+Lemma nf_drop_stream s t c : nf s (drop_stream s t) c.
+Proof.
+  unfold drop_stream. destruct (find_task t (tasks s)) as [x|]; [|nfe].
+  destruct (tstream x) as [sm|]; [|nfe]. destruct (negb _); [nfe|].
+  pose proof (nf_drop_pending s sm c) as E. destruct (drop_pending s sm) as [s1 sm1]. cbn [fst] in E.
+  set (s2 := if s_rx sm1 then drop_rx s1 (sg sm1) else s1).
+  assert (E2 : nf s s2 c) by (unfold s2; destruct (s_rx sm1); [eapply nf_trans; [exact E|apply nf_drop_rx]|exact E]).
+  destruct (_ && _); [|exact E2]. change (nf s (do_force_close s2) c). eapply nf_trans; [exact E2|apply nf_force_close].
+Qed.
+
+(* outside the processing of acknowledgements no acknowledgement channel is ever completed *)
+Lemma step_nf ks s o c :
+  inv ks s -> (forall l, o <> OAcks l) -> (c < length (chans s))%nat -> ackch ks c -> nf s (sink_step s o) c.
+Proof.
+  intros I NA L A. destruct o as [t k i z|t|t|l|t|t|on|n| | |n|t n|t|t| |t k i z]; cbn [sink_step].
+  - now apply nf_start with ks.
+  - now apply nf_poll with ks.
+  - now apply nf_drop with ks.
+  - exfalso. now apply (NA l).
+  - apply nf_release.
+  - apply nf_drop_receipt.
+  - now apply nf_wrb with ks.
+  - unfold do_set_cap. eapply nf_trans; [|apply nf_eq; reflexivity]. destruct A as [A|A]; eapply nf_wake; eauto; discriminate.
+  - apply nf_close.
+  - apply nf_force_close.
+  - now apply nf_eq.
+  - now apply nf_chunk.
+  - apply nf_drop_stream.
+  - apply nf_drop_chunk.
+  - nfe.
+  - now apply nf_create with ks.
+Qed.
+
+Lemma filled_by_send chs c0 v c :
+  c_st (ch_get chs c) <> CFilled -> c_st (ch_get (fst (ch_send chs c0 v)) c) = CFilled ->
+  c0 = c /\ c_val (ch_get (fst (ch_send chs c0 v)) c) = v /\ c_rx (ch_get chs c0) = true.
+Proof.
+  rewrite ch_send_get. destruct (Nat.eqb_spec c0 c) as [->|]; cbn [andb]; [|intros N F; contradiction].
+  destruct (c_rx (ch_get chs c)); [auto|intros N F; contradiction].
+Qed.
+
+Lemma nf_filled s s' c : nf s s' c -> c_st (cg s' c) = CFilled -> c_st (cg s c) = CFilled /\ c_val (cg s' c) = c_val (cg s c).
+Proof. unfold nf, nfill', same_tx, cg. intros H F. destruct (H F) as [A B]. split; congruence. Qed.
+
+(* a single acknowledgement completes channel [c] only if it matches the head of the queue, whose sender is [c] *)
+Lemma ack_one_fill ks s k id' c :
+  inv ks s -> ackch ks c -> c_st (cg s c) <> CFilled -> c_st (cg (ack_one s k id') c) = CFilled ->
+  io s = 0 /\ id' <> 0 /\ c_val (cg (ack_one s k id') c) = k /\ exists rest, inflight s = (id', Some c, k) :: rest.
+Proof.
+  intros I A NF. pose proof (kof_range ks c) as KR. 
+  assert (L : (c < length (chans s))%nat) by (rewrite <- (i_len _ _ I); destruct A as [A|A]; eapply kof_range; eauto).
+  assert (CONTRA : forall s', nf s s' c -> c_st (cg s' c) = CFilled -> False).
+  { intros s' N F. apply (nf_filled s s' c N) in F as [F _]. contradiction. }
+  unfold ack_one.
+  destruct (N.eqb_spec (io s) 0) as [Hio|Hio]; cbn [negb]; [|intros F; contradiction].
+  destruct ((k =? 0) || (5 <? k)); [intros F; contradiction|].
+  destruct (N.eqb_spec id' 0) as [->|Hid]; [intros F; exfalso; exact (CONTRA _ (nf_close _ _) F)|].
+  destruct (((k =? 4) || (k =? 5)) && negb (client s)); [intros F; contradiction|].
+  unfold pkt_ack, pkt_ack_inner.
+  destruct (inflight s) as [|[[i tx] tp] rest] eqn:HI.
+  { intros F; exfalso; exact (CONTRA _ (nf_close _ _) F). }
+  assert (DT : nf s (drop_tx_opt (set_inflight s rest) tx) c).
+  { rewrite drop_tx_opt_eq. unfold nf. sk. apply nfill_weak. destruct tx; [apply nfill_drop_tx|apply nfill_refl]. }
+  destruct (N.eqb_spec i id') as [->|NE]; cbn [negb].
+  2:{ intros F; exfalso; exact (CONTRA _ (nf_trans _ _ _ _ DT (nf_close _ _)) F). }
+  destruct (N.eqb_spec k tp) as [->|NE]; cbn [negb].
+  2:{ intros F; exfalso; exact (CONTRA _ (nf_trans _ _ _ _ DT (nf_close _ _)) F). }
+  destruct (i_inf _ _ I id' tx tp) as (_ & _ & c0 & -> & K0 & O0); [rewrite HI; now left|].
+  assert (NW : ~ In c (waiters s)).
+  { intros H. apply (i_ws _ _ I) in H as [H _]. destruct A as [A|A]; congruence. }
+  (* every matched case: send on the head's channel, then channel operations that keep the sender side *)
+  assert (KEY : forall s', nfill' (fst (ch_send (chans s) c0 tp)) (chans s') c ->
+                 c_st (cg s' c) = CFilled ->
+                 io s = 0 /\ id' <> 0 /\ c_val (cg s' c) = tp /\ exists rest0, (id', Some c0, tp) :: rest = (id', Some c, tp) :: rest0).
+  { intros s' N F. unfold cg in F. destruct (N F) as [S1 S2].
+    assert (F1 : c_st (ch_get (fst (ch_send (chans s) c0 tp)) c) = CFilled) by congruence.
+    destruct (filled_by_send _ _ _ _ NF F1) as (-> & V & _). repeat split; auto; [unfold cg; congruence|eauto]. }
+  assert (KEY2 : forall chs : list chan, nfill' (fst (ch_send (chans s) c0 tp)) (fst (ch_send (ch_drop_rx (chans s) c0) c0 tp)) c).
+  { intros _. unfold nfill', same_tx. intros F. exfalso. revert F. rewrite ch_send_get.
+    rewrite ch_drop_rx_get, Nat.eqb_refl. cbn [drx c_rx]. rewrite andb_false_r, ch_drop_rx_get.
+    destruct (Nat.eqb c0 c); cbn [drx c_st]; exact NF. }
+  destruct (N.eqb_spec tp 2) as [->|N2].
+  { unfold new_chan, rxm_insert, send_opt. rewrite send_eq. cbn [fst snd]. sk. cbn [fst snd].
+    intros F. apply KEY in F; auto.
+    destruct (rxm_find id' (rxm s)); unfold drop_rx; sk.
+    - eapply nfill'_trans; [apply nfill_weak, nfill_app; rewrite ch_send_length; exact L|apply nfill'_drop_rx].
+    - apply nfill_weak, nfill_app. rewrite ch_send_length. exact L. }
+  destruct (N.eqb_spec tp 3) as [->|N3].
+  { unfold send_opt. rewrite send_eq. cbn [fst]. rewrite wake_eq. sk.
+    destruct (rxm_find id' (rxm s)) as [cx|] eqn:RF; unfold drop_rx; sk; intros F; apply KEY in F; auto.
+    - apply rxm_find_In in RF. destruct (i_rxm _ _ I id' cx RF) as (_ & _ & _ & R4 & _). specialize (R4 Hio).
+      rewrite HI in R4. assert (cx = c0) as ->.
+      { destruct R4 as [E|R4]; [now injection E as <-|]. exfalso. pose proof (i_infnd _ _ I) as ND. rewrite HI in ND.
+        cbn [map fst3 fst] in ND. inversion ND as [|? ? N1 _]; subst. apply N1. apply in_map_iff. exists (id', Some cx, 3). auto. }
+      eapply nfill'_trans; [apply KEY2; exact (chans s)|]. apply nfill_weak. apply nfill_wake; [apply I|exact NW].
+    - apply nfill_weak. apply nfill_wake; [apply I|exact NW]. }
+  unfold send_opt. rewrite send_eq. cbn [fst]. rewrite wake_eq. sk. intros F; apply KEY in F; auto.
+  apply nfill_weak. apply nfill_wake; [apply I|exact NW].
+Qed.
+
+Lemma find_put_same t x l : find_task t (put_task t x l) = Some x.
+Proof.
+  induction l as [|[i y] r IH]; cbn [put_task find_task]; [now rewrite N.eqb_refl|].
+  destruct (N.eqb_spec i t) as [->|N]; cbn [find_task]; [now rewrite N.eqb_refl|].
+  destruct (t <? i); cbn [find_task]; [now rewrite N.eqb_refl|].
+  destruct (N.eqb_spec i t); [contradiction|exact IH].
+Qed.
+Lemma find_put_other t t' x l : t' <> t -> find_task t' (put_task t x l) = find_task t' l.
+Proof.
+  intros N. induction l as [|[i y] r IH]; cbn [put_task find_task].
+  - destruct (N.eqb_spec t t'); [congruence|reflexivity].
+  - destruct (N.eqb_spec i t) as [->|N1]; cbn [find_task].
+    + destruct (N.eqb_spec t t'); [congruence|reflexivity].
+    + destruct (t <? i); cbn [find_task].
+      * destruct (N.eqb_spec t t'); [congruence|reflexivity].
+      * destruct (i =? t'); auto.
+Qed.
+
+Lemma ack_one_tasks s k id : tasks (ack_one s k id) = tasks s.
+Proof.
+  unfold ack_one. destruct (negb _); auto. destruct (_ || _); auto.
+  assert (C : forall s0, tasks (do_close s0) = tasks s0).
+  { intros s0. destruct (do_close_spec s0) as (s2 & -> & C). rewrite clear_queues_eq. sk. apply C. }
+  destruct (id =? 0); [apply C|]. destruct (_ && _); auto. unfold pkt_ack, pkt_ack_inner.
+  destruct (inflight s) as [|[[i tx] tp] rest]; [apply C|].
+  assert (D : forall s0, tasks (drop_tx_opt s0 tx) = tasks s0) by (intros s0; rewrite drop_tx_opt_eq; reflexivity).
+  assert (S : forall s0 v, tasks (send_opt s0 tx v) = tasks s0) by (intros s0 v; apply (send_opt_nc s0 tx v)).
+  destruct (negb (i =? id)); [rewrite C, D; reflexivity|]. destruct (negb (k =? tp)); [rewrite C, D; reflexivity|].
+  destruct (k =? 2).
+  { unfold new_chan, rxm_insert. cbn [fst snd]. sk. cbn [fst snd]. destruct (rxm_find _ _); unfold drop_rx; sk; now rewrite S. }
+  destruct (k =? 3).
+  { rewrite wake_eq. sk. rewrite S. destruct (rxm_find _ _); unfold drop_rx; reflexivity. }
+  rewrite wake_eq. sk. now rewrite S.
+Qed.
+Lemma ack_list_tasks l : forall s, tasks (ack_list s l) = tasks s.
+Proof. induction l as [|[k id] r IH]; intros s; cbn [ack_list]; auto. now rewrite IH, ack_one_tasks. Qed.
+
+(* ---------------------------------------------------------------- identifiers *)
+Theorem ids_inv s : sink_inv s ->
+  NoDup (map fst3 (inflight s)) /\ (forall e, In e (inflight s) -> fst3 e <> 0) /\
+  (io s = 0 -> forall i, memN i (ids s) = true <-> In i (map fst3 (inflight s))).
+Proof.
+  intros [ks I]. split; [apply I|]. split; [|apply I].
+  intros [[i tx] tp] H. apply (i_inf _ _ I i tx tp H).
+Qed.
+
+(* an explicit packet id that is still in flight is refused: the send fails with PacketIdInUse, nothing is queued *)
+Lemma proceed_inuse s x :
+  tid x <> 0 -> memN (tid x) (ids s) = true -> srem s = 0 ->
+  (tk x = 7 -> match sig_of x with Some c => rx_alive s c = true | None => True end) ->
+  snd (proceed s x) = TDone ST_IDINUSE /\ inflight (fst (proceed s x)) = inflight s.
+Proof.
+  intros T M S A. unfold proceed, inner_subscribe, inner_publish, wait_response, wait_publish_response.
+  destruct (N.eqb_spec (tid x) 0); [contradiction|]. rewrite S, M. cbn [N.eqb negb].
+  replace (negb (0 =? 0)) with false by reflexivity.
+  destruct ((tk x =? 3) || (tk x =? 4)); cbn [fst snd]; auto.
+  destruct (N.eqb_spec (tk x) 7) as [E|E]; cbn [andb].
+  - specialize (A E). destruct (sig_of x) as [c|].
+    + rewrite A. cbn [negb fst snd]. split; auto. apply (send_opt_nc s (Some c) 0).
+    + cbn [negb fst snd send_opt]. auto.
+  - cbn [fst snd]. auto.
+Qed.
+
+Theorem explicit_id_in_use_refused s t k idq size :
+  sink_inv s -> io s = 0 -> find_task t (tasks s) = None ->
+  (k = 1 \/ k = 2 \/ k = 3 \/ k = 4 \/ k = 7) -> idq <> 0 -> In idq (map fst3 (inflight s)) ->
+  srem s = 0 -> lenN (inflight s) < cap s -> wrb s = false ->
+  (exists x, find_task t (tasks (start_task s t k idq size)) = Some x /\ tst x = TDone ST_IDINUSE) /\
+  inflight (start_task s t k idq size) = inflight s.
+Proof.
+  intros SI Hio F K Hid Hin S L W. destruct (ids_inv s SI) as (_ & _ & IDS). apply (IDS Hio) in Hin.
+  unfold start_task. rewrite F.
+  replace ((k =? 0) || (7 <? k)) with false by (destruct K as [->|[->|[->|[->| ->]]]]; reflexivity).
+  replace (k =? 6) with false by (destruct K as [->|[->|[->|[->| ->]]]]; reflexivity).
+  replace (k =? 5) with false by (destruct K as [->|[->|[->|[->| ->]]]]; reflexivity).
+  set (s0x := if k =? 7 then _ else _).
+  assert (E : s0x = (if k =? 7 then set_chans s (chans s ++ [open_ch]) else s, new_task k idq size (length (chans s)))).
+  { unfold s0x, new_task, new_chan. destruct (k =? 7); reflexivity. }
+  rewrite E. clear E s0x. set (s0 := if k =? 7 then _ else s). set (x := new_task k idq size (length (chans s))).
+  assert (Z : is_closed s0 = false) by (unfold is_closed, s0; destruct (k =? 7); sk; rewrite Hio; reflexivity).
+  rewrite Z. unfold window_then_proceed, wait_readiness.
+  assert (R : (cap s0 <=? lenN (inflight s0)) || wrb s0 = false).
+  { unfold s0. destruct (k =? 7); sk; rewrite W, orb_false_r; apply N.leb_gt; exact L. }
+  rewrite R.
+  assert (TX : tid x = idq /\ tk x = k) by (unfold x, new_task; destruct (k =? 7); auto). destruct TX as [TX TK].
+  destruct (proceed_inuse s0 x) as [P1 P2].
+  - now rewrite TX.
+  - rewrite TX. unfold s0. destruct (k =? 7); exact Hin.
+  - unfold s0. destruct (k =? 7); exact S.
+  - intros E7. rewrite TK in E7. apply N.eqb_eq in E7. unfold x, new_task, s0. rewrite E7.
+    cbn [sig_of tstream sg]. unfold rx_alive. sk. now rewrite ch_get_app_new.
+  - destruct (proceed s0 x) as [s1 st]. cbn [fst snd] in *. subst st. split.
+    + eexists. sk. rewrite find_put_same. split; [reflexivity|]. reflexivity.
+    + sk. rewrite (nc_inflight _ _ (drop_sig_nc s1 x)), P2. unfold s0. destruct (k =? 7); reflexivity.
+Qed.
+
+(* ---------------------------------------------------------------- an awaited channel is completed only by its own ack *)
+(* the task awaits an acknowledgement on [c]: kind and id of the entry that can complete it *)
+Definition awaits (x : task) (c : nat) (k id : N) : Prop :=
+  (tst x = TAwaitAck c id /\ k = exp_kind x) \/ (tst x = TAwaitComp c /\ k = 3).
+
+Lemma awaits_ackch ks s x c k id : st_ok ks s x -> awaits x c k id -> ackch ks c.
+Proof. unfold st_ok, awaits, ackch. intros SO [[E _]|[E _]]; rewrite E in SO; destruct SO as (K & _); auto. Qed.
+
+Lemma fill_in_acks l : forall s t x c k id,
+  sink_inv s -> In (t, x) (tasks s) -> awaits x c k id ->
+  c_st (cg s c) <> CFilled -> c_st (cg (ack_list s l) c) = CFilled ->
+  exists l1 id' l2, l = l1 ++ (k, id') :: l2 /\ (forall i, tst x = TAwaitAck c i -> id' = i) /\
+    io (ack_list s l1) = 0 /\ id' <> 0 /\ (exists rest, inflight (ack_list s l1) = (id', Some c, k) :: rest) /\
+    c_val (cg (ack_list s l) c) = k.
+Proof.
+  induction l as [|[k0 id0] r IH]; intros s t x c k id SI H AW NF F; cbn [ack_list] in *; [contradiction|].
+  destruct SI as [ks I]. destruct (i_task _ _ I t x H) as [SO MO].
+  pose proof (awaits_ackch ks s x c k id SO AW) as AC.
+  assert (SI1 : sink_inv (ack_one s k0 id0)) by (apply inv_ack_one; now exists ks).
+  assert (H1 : In (t, x) (tasks (ack_one s k0 id0))) by (rewrite ack_one_tasks; exact H).
+  destruct (c_st (cg (ack_one s k0 id0) c)) eqn:E1.
+  1,3: destruct (IH (ack_one s k0 id0) t x c k id SI1 H1 AW) as (l1 & id' & l2 & -> & A1 & A2 & A3 & A4 & A5);
+       [congruence|exact F|]; exists ((k0, id0) :: l1), id', l2; cbn [app ack_list]; auto 10.
+  destruct (ack_one_fill ks s k0 id0 c I AC NF E1) as (Hio & Hid & V & rest & HI).
+  (* the head entry belongs to this task: kind and id agree *)
+  assert (KI : k0 = k /\ forall i, tst x = TAwaitAck c i -> id0 = i).
+  { unfold st_ok, awaits in *. destruct AW as [[E ->]|[E ->]]; rewrite E in SO.
+    - destruct SO as (_ & _ & S3 & _). destruct (S3 id0 k0) as [<- <-]; [rewrite HI; now left|].
+      split; auto. intros i Ei. congruence.
+    - destruct SO as (K & _). destruct (i_inf _ _ I id0 (Some c) k0) as (_ & _ & c' & Ec & Kc & _); [rewrite HI; now left|].
+      injection Ec as <-. rewrite K in Kc. split; [|intros i Ei; congruence].
+      destruct (N.eqb_spec k0 3); [auto|discriminate]. }
+  destruct KI as [-> KI]. exists [], id0, r. cbn [app ack_list]. repeat split; auto; [eauto|].
+  (* the value seen at the end is the one the task expects *)
+  destruct (inv_ack_list r _ SI1) as [ks' I']. pose proof (ack_list_tasks r (ack_one s k id0)) as TL.
+  assert (H' : In (t, x) (tasks (ack_list (ack_one s k id0) r))) by (rewrite TL; exact H1).
+  destruct (i_task _ _ I' t x H') as [SO' _]. unfold st_ok, awaits in *.
+  destruct AW as [[E Ek]|[E Ek]]; rewrite E in SO'.
+  - destruct SO' as (_ & _ & _ & _ & S5 & _). rewrite (S5 F). auto.
+  - destruct SO' as (_ & _ & _ & S4 & _). rewrite (S4 F). auto.
+Qed.
+
+Theorem ack_goes_to_head s o t x c k id :
+  sink_inv s -> settled s -> find_task t (tasks s) = Some x -> awaits x c k id ->
+  c_st (cg s c) <> CFilled -> c_st (cg (sink_op s o) c) = CFilled ->
+  exists l1 id' l2, o = OAcks (l1 ++ (k, id') :: l2) /\ (forall i, tst x = TAwaitAck c i -> id' = i) /\ id' <> 0 /\
+    let s1 := ack_list (set_wire s []) l1 in
+    io s1 = 0 /\ (exists rest, inflight s1 = (id', Some c, k) :: rest) /\ c_val (cg (sink_op s o) c) = k.
+Proof.
+  intros SI ST F AW NF FL. destruct SI as [ks I].
+  assert (H : In (t, x) (tasks s)) by (apply find_task_In; auto; apply I).
+  destruct (i_task _ _ I t x H) as [SO MO]. pose proof (awaits_ackch ks s x c k id SO AW) as AC.
+  set (s0 := set_wire s []).
+  assert (I0 : inv ks s0) by (apply inv_core with s; auto).
+  assert (CS : forall s1, cg (settle s1) c = cg s1 c) by (intros s1; unfold settle, cg; destruct (io s1 =? 1); reflexivity).
+  unfold sink_op in FL. fold s0 in FL. rewrite CS in FL.
+  destruct o as [t0 k0 i z|t0|t0|l|t0|t0|on|n| | |n|t0 n|t0|t0| |t0 k0 i z];
+    try (exfalso; apply NF; apply (nf_filled s0 _ c) in FL as [FL _]; [exact FL|];
+         apply step_nf with ks; auto; [discriminate|rewrite <- (i_len _ _ I0); destruct AC as [A|A]; eapply kof_range; eauto]).
+  2,3: exfalso; apply NF; exact FL.
+  cbn [sink_step] in FL.
+  destruct (fill_in_acks l s0 t x c k id) as (l1 & id' & l2 & -> & A1 & A2 & A3 & A4 & A5); auto; [now exists ks|].
+  exists l1, id', l2. unfold sink_op. fold s0. rewrite CS. cbn [sink_step]. auto 10.
+Qed.
+
+(* ---------------------------------------------------------------- an acknowledgement that does not answer the head *)
+Definition head_matches (s : sink) (k id : N) : bool :=
+  match inflight s with (i, _, tp) :: _ => (i =? id) && (k =? tp) | [] => false end.
+(* the dispatcher hands the acknowledgement to pkt_ack (open io, a known ack kind, not a SUBACK/UNSUBACK read by a server) *)
+Definition ack_seen (s : sink) (k : N) : bool :=
+  (io s =? 0) && negb ((k =? 0) || (5 <? k)) && negb (((k =? 4) || (k =? 5)) && negb (client s)).
+
+Theorem mismatch_is_clean s k id :
+  ack_seen s k = true -> (id =? 0) || negb (head_matches s k id) = true ->
+  let s' := ack_one s k id in
+  tasks s' = tasks s /\ io s' <> 0 /\ inflight s' = [] /\ waiters s' = [] /\
+  forall c, c_st (cg s' c) = CFilled -> c_st (cg s c) = CFilled /\ c_val (cg s' c) = c_val (cg s c).
+Proof.
+  unfold ack_seen, head_matches. intros AS MM. apply andb_true_iff in AS as [AS A3]. apply andb_true_iff in AS as [A1 A2].
+  cbv zeta. split; [apply ack_one_tasks|].
+  assert (CL : forall s1, (forall c, nf s s1 c) ->
+     io (do_close s1) <> 0 /\ inflight (do_close s1) = [] /\ waiters (do_close s1) = [] /\
+     forall c, c_st (cg (do_close s1) c) = CFilled -> c_st (cg s c) = CFilled /\ c_val (cg (do_close s1) c) = c_val (cg s c)).
+  { intros s1 N. destruct (close_facts s1) as (_ & _ & _ & F4 & F5). split; auto. split; auto. split.
+    - destruct (do_close_spec s1) as (s2 & -> & _). rewrite clear_queues_eq. reflexivity.
+    - intros c. apply nf_filled. eapply nf_trans; [apply N|apply nf_close]. }
+  unfold ack_one. apply N.eqb_eq in A1. rewrite A1. cbn [N.eqb negb]. replace (negb (0 =? 0)) with false by reflexivity.
+  apply negb_true_iff in A2. rewrite A2. apply negb_true_iff in A3. rewrite A3.
+  destruct (N.eqb_spec id 0) as [E|E]; [apply CL; intros c; apply nf_refl|]. cbn [orb] in MM.
+  unfold pkt_ack, pkt_ack_inner. destruct (inflight s) as [|[[i tx] tp] rest]; [apply CL; intros c; apply nf_refl|].
+  assert (DT : forall c, nf s (drop_tx_opt (set_inflight s rest) tx) c).
+  { intros c. rewrite drop_tx_opt_eq. unfold nf. sk. apply nfill_weak. destruct tx; [apply nfill_drop_tx|apply nfill_refl]. }
+  apply negb_true_iff, andb_false_iff in MM.
+  destruct (i =? id); cbn [negb]; [|apply CL; exact DT].
+  destruct (k =? tp); cbn [negb]; [|apply CL; exact DT]. destruct MM; discriminate.
+Qed.
+
+(* with the invariant: every send that was still waiting for its acknowledgement fails (its channel is cancelled) *)
+Theorem mismatch_fails_pending s k id t x c i :
+  sink_inv s -> ack_seen s k = true -> (id =? 0) || negb (head_matches s k id) = true ->
+  find_task t (tasks s) = Some x -> tst x = TAwaitAck c i -> c_st (cg s c) = COpen ->
+  c_st (cg (ack_one s k id) c) = CSenderDropped.
+Proof.
+  intros SI AS MM F E O. destruct (mismatch_is_clean s k id AS MM) as (T & Hio & HI & _ & NFL).
+  destruct (inv_ack_one s k id SI) as [ks' I'].
+  assert (H : In (t, x) (tasks (ack_one s k id))).
+  { rewrite T. destruct SI as [ks I]. apply find_task_In; auto. apply I. }
+  destruct (i_task _ _ I' t x H) as [SO _]. unfold st_ok in SO. rewrite E in SO.
+  destruct SO as (_ & _ & _ & S4 & _).
+  destruct (c_st (cg (ack_one s k id) c)) eqn:Q; auto.
+  - specialize (S4 eq_refl). rewrite HI in S4. contradiction.
+  - destruct (NFL c Q) as [Z _]. congruence.
+Qed.
+
+(* ---------------------------------------------------------------- an identifier is free again after the final ack *)
+Theorem id_reusable_after_finish s k id :
+  ack_seen s k = true -> id <> 0 -> head_matches s k id = true -> k <> 2 ->
+  memN id (ids (ack_one s k id)) = false.
+Proof.
+  unfold ack_seen, head_matches. intros AS Hid HM K2. apply andb_true_iff in AS as [AS A3]. apply andb_true_iff in AS as [A1 A2].
+  unfold ack_one. apply N.eqb_eq in A1. rewrite A1. replace (negb (0 =? 0)) with false by reflexivity.
+  apply negb_true_iff in A2. rewrite A2. apply negb_true_iff in A3. rewrite A3.
+  destruct (N.eqb_spec id 0); [contradiction|].
+  unfold pkt_ack, pkt_ack_inner. destruct (inflight s) as [|[[i tx] tp] rest]; [discriminate|].
+  apply andb_true_iff in HM as [H1 H2]. rewrite H1, H2. cbn [negb].
+  destruct (N.eqb_spec k 2); [contradiction|].
+  pose proof (fun s0 v => nc_ids _ _ (send_opt_nc s0 tx v)) as SN.
+  destruct (k =? 3).
+  - rewrite wake_eq. sk. rewrite SN. destruct (rxm_find _ _); unfold drop_rx; sk; apply memN_removeN.
+  - rewrite wake_eq. sk. rewrite SN. sk. apply memN_removeN.
+Qed.
+
+(* ---------------------------------------------------------------- a peer that acknowledges in order *)
+Fixpoint good_acks (s : sink) (l : list (N * N)) : bool :=
+  match l with
+  | [] => true
+  | (k, id) :: r => (negb (io s =? 0) || head_matches s k id) && good_acks (ack_one s k id) r
+  end.
+Definition good_step (s : sink) (o : op) : bool :=
+  match o with OAcks l => good_acks (set_wire s []) l | _ => true end.
+Fixpoint good_peer (s : sink) (ops : list op) : bool :=
+  match ops with [] => true | o :: r => good_step s o && good_peer (sink_op s o) r end.
+
+Lemma pkt_ack_inner_ok s k id : head_matches s k id = true -> snd (pkt_ack_inner s k id) = true.
+Proof.
+  unfold head_matches, pkt_ack_inner. destruct (inflight s) as [|[[i tx] tp] rest]; [discriminate|].
+  intros H. apply andb_true_iff in H as [-> ->]. cbn [negb]. destruct (k =? 2); [destruct (new_chan _); reflexivity|].
+  destruct (k =? 3); reflexivity.
+Qed.
+
+Lemma good_ack_io s k id : sink_inv s -> negb (io s =? 0) || head_matches s k id = true -> io (ack_one s k id) = io s.
+Proof.
+  intros [ks I] G. unfold ack_one. destruct (N.eqb_spec (io s) 0) as [Hio|Hio]; cbn [negb orb] in *; auto.
+  destruct (_ || _); auto.
+  assert (Hid : id <> 0).
+  { unfold head_matches in G. destruct (inflight s) as [|[[i tx] tp] rest] eqn:HI; [discriminate|].
+    apply andb_true_iff in G as [G _]. apply N.eqb_eq in G. subst i.
+    apply (i_inf _ _ I id tx tp). rewrite HI. now left. }
+  destruct (N.eqb_spec id 0); [contradiction|]. destruct (_ && _); auto.
+  unfold pkt_ack. pose proof (pkt_ack_inner_ok s k id G) as OK. pose proof (pkt_ack_inner_io s k id) as E.
+  destruct (pkt_ack_inner s k id) as [s1 ok]. cbn [fst snd] in *. now rewrite OK.
+Qed.
+
+Lemma good_acks_io l : forall s, sink_inv s -> good_acks s l = true -> io (ack_list s l) = io s.
+Proof.
+  induction l as [|[k id] r IH]; intros s SI G; cbn [ack_list good_acks] in *; auto.
+  apply andb_true_iff in G as [G1 G2]. rewrite IH; auto using inv_ack_one. now apply good_ack_io.
+Qed.
+
+Theorem good_peer_never_closes pre : forall s l post,
+  sink_inv s -> settled s -> good_peer s (pre ++ OAcks l :: post) = true ->
+  io (run_from s (pre ++ [OAcks l])) = io (run_from s pre).
+Proof.
+  induction pre as [|o r IH]; intros s l post SI ST G; cbn [app good_peer run_from fold_left] in *.
+  - apply andb_true_iff in G as [G _]. cbn [good_step] in G.
+    unfold sink_op. cbn [sink_step]. set (s0 := set_wire s []).
+    assert (SI0 : sink_inv s0) by (destruct SI as [ks I]; exists ks; apply inv_core with s; auto).
+    pose proof (good_acks_io l s0 SI0 G) as E. change (io s0) with (io s) in E.
+    unfold settle. destruct (N.eqb_spec (io (ack_list s0 l)) 1) as [Z|Z]; auto.
+    exfalso. rewrite E in Z. destruct ST; congruence.
+  - apply andb_true_iff in G as [_ G]. destruct (inv_sink_op s o SI ST) as [SI1 ST1]. exact (IH _ l post SI1 ST1 G).
+Qed.
+
+(* once the entry of a send has left the queue of an open connection, its acknowledgement is there: the poll completes *)
+Theorem acked_send_completes s t x c id :
+  sink_inv s -> io s = 0 -> find_task t (tasks s) = Some x -> tst x = TAwaitAck c id ->
+  (forall tp, ~ In (id, Some c, tp) (inflight s)) ->
+  c_st (cg s c) = CFilled /\ c_val (cg s c) = exp_kind x /\
+  exists x', find_task t (tasks (poll_task s t)) = Some x' /\
+             tst x' = (if tk x =? 2 then TReceipt id else TDone ST_OK).
+Proof.
+  intros [ks I] Hio F E NI. assert (H : In (t, x) (tasks s)) by (apply find_task_In; auto; apply I).
+  destruct (i_task _ _ I t x H) as [SO _]. unfold st_ok in SO. rewrite E in SO.
+  destruct SO as (_ & _ & _ & S4 & S5 & S6).
+  assert (FL : c_st (cg s c) = CFilled).
+  { destruct (c_st (cg s c)) eqn:Q; auto; [exfalso; eapply NI; eauto|exfalso; now apply S6]. }
+  split; auto. split; auto.
+  unfold poll_task. rewrite F, E. unfold poll, ch_poll. fold (cg s c). rewrite FL.
+  eexists. sk. rewrite find_put_same. split; reflexivity.
+Qed.
+
+Theorem completed_release_completes s t x c :
+  sink_inv s -> io s = 0 -> find_task t (tasks s) = Some x -> tst x = TAwaitComp c ->
+  (forall i, ~ In (i, Some c, 3) (inflight s)) ->
+  exists x', find_task t (tasks (poll_task s t)) = Some x' /\ tst x' = TDone ST_OK.
+Proof.
+  intros [ks I] Hio F E NI. assert (H : In (t, x) (tasks s)) by (apply find_task_In; auto; apply I).
+  destruct (i_task _ _ I t x H) as [SO _]. unfold st_ok in SO. rewrite E in SO.
+  destruct SO as (_ & _ & S3 & S4 & S5).
+  assert (FL : c_st (cg s c) = CFilled).
+  { destruct (c_st (cg s c)) eqn:Q; auto; [exfalso; destruct (S3 eq_refl) as (i & Hi); eapply NI; eauto|exfalso; now apply S5]. }
+  unfold poll_task. rewrite F, E. unfold poll, ch_poll. fold (cg s c). rewrite FL.
+  eexists. sk. rewrite find_put_same. split; reflexivity.
+Qed.
+
+(* a task completes successfully only by finding its channel completed *)
+Theorem ok_only_if_filled s t x c id x' :
+  find_task t (tasks s) = Some x -> tst x = TAwaitAck c id ->
+  find_task t (tasks (poll_task s t)) = Some x' -> (tst x' = TDone ST_OK \/ tst x' = TReceipt id) ->
+  c_st (cg s c) = CFilled.
+Proof.
+  intros F E. unfold poll_task. rewrite F, E. unfold poll, ch_poll. fold (cg s c).
+  destruct (c_st (cg s c)); auto; sk; rewrite find_put_same; intros Q; injection Q as <-; cbn [with_tst tst];
+    intros [Z|Z]; discriminate.
+Qed.
+
+(* ================================================================ C14: concurrent exactly-once exchanges *)
+Lemma rxm_find_del_other id j l : j <> id -> rxm_find j (rxm_del id l) = rxm_find j l.
+Proof.
+  intros N. induction l as [|[i c] r IH]; cbn [rxm_del rxm_find]; auto.
+  destruct (N.eqb_spec i id) as [->|N1].
+  - destruct (N.eqb_spec id j); [congruence|exact IH].
+  - cbn [rxm_find]. destruct (i =? j); auto.
+Qed.
+Lemma rxm_find_del_same id l : rxm_find id (rxm_del id l) = None.
+Proof.
+  induction l as [|[i c] r IH]; cbn [rxm_del rxm_find]; auto.
+  destruct (N.eqb_spec i id) as [->|N1]; auto. cbn [rxm_find]. destruct (N.eqb_spec i id); [contradiction|exact IH].
+Qed.
+
+(* what the release of receipt [id] (its handle being released or merely dropped) does to the wire *)
+Theorem release_writes_own_pubrel s t x id c :
+  find_task t (tasks s) = Some x -> tst x = TReceipt id -> rxm_find id (rxm s) = Some c ->
+  wire (release_task s t) = (if (io s =? 0) && (crem s =? 0) then wire s ++ [W_PUBREL; id] else wire s) /\
+  wire (drop_receipt s t) = (if (io s =? 0) && (crem s =? 0) then wire s ++ [W_PUBREL; id] else wire s).
+Proof.
+  intros F E R. unfold release_task, drop_receipt, release_publish. rewrite F, E, R.
+  unfold enc_packet, add_wire. sk. destruct (io s =? 0); cbn [andb].
+  - destruct (crem s =? 0); cbn [negb]; sk.
+    + split; [|reflexivity]. unfold poll. sk. destruct (ch_poll _ _); reflexivity.
+    + split; reflexivity.
+  - split; [|reflexivity]. unfold poll. sk. destruct (ch_poll _ _); reflexivity.
+Qed.
+
+(* releasing / dropping a receipt touches nothing that belongs to another exchange *)
+Definition untouched (s s' : sink) (t id : N) : Prop :=
+  (forall t', t' <> t -> find_task t' (tasks s') = find_task t' (tasks s)) /\
+  (forall j, j <> id -> rxm_find j (rxm s') = rxm_find j (rxm s)) /\
+  inflight s' = inflight s /\ ids s' = ids s /\ waiters s' = waiters s /\ io s' = io s /\
+  (forall c', rxm_find id (rxm s) <> Some c' -> cg s' c' = cg s c').
+
+Theorem release_no_cross_talk s t x id :
+  find_task t (tasks s) = Some x -> tst x = TReceipt id ->
+  untouched s (release_task s t) t id /\ untouched s (drop_receipt s t) t id.
+Proof.
+  intros F E. unfold release_task, drop_receipt, release_publish. rewrite F, E.
+  assert (PT : forall s1 y, tasks s1 = tasks s -> forall t', t' <> t ->
+     find_task t' (tasks (set_tasks s1 (put_task t y (tasks s1)))) = find_task t' (tasks s)).
+  { intros s1 y T t' N. sk. rewrite T. now apply find_put_other. }
+  destruct (rxm_find id (rxm s)) as [c|] eqn:R.
+  2:{ unfold untouched. sk. split; repeat split; auto; intros; apply find_put_other; auto. }
+  destruct (enc_packet (set_rxm s (rxm_del id (rxm s))) W_PUBREL id) as [s2 ok] eqn:EP.
+  destruct (enc_packet_core _ _ _ _ _ EP) as (E1 & E2 & E3 & E4 & E5 & E6 & E7 & E8). sk in E1. sk in E2. sk in E3. sk in E4.
+  sk in E6. sk in E7. sk in E8.
+  assert (DR : forall c', Some c <> Some c' -> cg (drop_rx s2 c) c' = cg s c').
+  { intros c' N. rewrite cg_drop_rx. destruct (Nat.eqb_spec c c') as [->|]; [congruence|]. unfold cg. now rewrite E7. }
+  assert (SM : forall c', cg s2 c' = cg s c') by (intros c'; unfold cg; now rewrite E7).
+  assert (RX : forall j, j <> id -> rxm_find j (rxm s2) = rxm_find j (rxm s)).
+  { intros j N. rewrite E4. now apply rxm_find_del_other. }
+  assert (UA : forall y, untouched s (set_tasks s2 (put_task t y (tasks s2))) t id).
+  { intros y. unfold untouched. sk. split; [intros; apply PT; auto|]. split; [exact RX|]. repeat split; auto.
+    intros c' _. apply SM. }
+  assert (UB : forall y, untouched s (set_tasks (drop_rx s2 c) (put_task t y (tasks (drop_rx s2 c)))) t id).
+  { intros y. unfold untouched. split; [intros; apply (PT (drop_rx s2 c)); auto|]. split; [exact RX|]. repeat split; auto.
+    intros c' N. change (cg (drop_rx s2 c) c' = cg s c'). apply DR. now rewrite <- R. }
+  split.
+  - destruct ok; [destruct (poll s2 c)|]; first [apply UA|apply UB].
+  - apply UB.
+Qed.
+
+Theorem release_leaves_others s t x id s' :
+  sink_inv s -> find_task t (tasks s) = Some x -> tst x = TReceipt id ->
+  s' = release_task s t \/ s' = drop_receipt s t ->
+  (forall t' x' c', t' <> t -> find_task t' (tasks s) = Some x' ->
+     find_task t' (tasks s') = Some x' /\ (In c' (trx x') -> cg s' c' = cg s c')) /\
+  (forall j c', j <> id -> rxm_find j (rxm s) = Some c' -> rxm_find j (rxm s') = Some c' /\ cg s' c' = cg s c').
+Proof.
+  intros [ks I] F E S'. destruct (release_no_cross_talk s t x id F E) as [U1 U2].
+  assert (U : untouched s s' t id) by (destruct S' as [-> | ->]; auto). clear U1 U2.
+  destruct U as (U1 & U2 & _ & _ & _ & _ & U7). split.
+  - intros t' x' c' N F'. split; [now rewrite U1|]. intros Hc. apply U7. intros R. apply rxm_find_In in R.
+    assert (H' : In (t', x') (tasks s)) by (apply find_task_In; auto; apply I).
+    destruct (i_rxm _ _ I id c' R) as (_ & _ & _ & _ & _ & R6). eapply R6; eauto.
+  - intros j c' N R. split; [now rewrite U2|]. apply U7. intros R'. apply rxm_find_In in R, R'.
+    apply N. exact (NoDup_map_inv_snd _ _ _ _ (i_rxmc _ _ I) R R').
+Qed.
+
+(* the release awaits the channel stored under its own identifier by the PUBREC of that identifier; that channel is
+   the sender side of the queue entry (id, _, Complete), so (C06_ack_goes_to_head) only PUBCOMP(id) completes it *)
+Theorem release_waits_own_pubcomp s t x id c :
+  sink_inv s -> io s = 0 -> crem s = 0 -> find_task t (tasks s) = Some x -> tst x = TReceipt id ->
+  rxm_find id (rxm s) = Some c ->
+  In (id, Some c, 3) (inflight s) /\ c_st (cg s c) = COpen /\
+  let s' := release_task s t in
+  (exists x', find_task t (tasks s') = Some x' /\ tst x' = TAwaitComp c) /\
+  In (id, Some c, 3) (inflight s') /\ rxm_find id (rxm s') = None.
+Proof.
+  intros [ks I] Hio Hc F E R. pose proof (rxm_find_In _ _ _ R) as RI.
+  destruct (i_rxm _ _ I id c RI) as (_ & _ & _ & R4 & _). specialize (R4 Hio).
+  destruct (i_inf _ _ I id (Some c) 3 R4) as (_ & _ & c' & Ec & _ & O). injection Ec as <-.
+  split; auto. split; auto. cbv zeta.
+  unfold release_task, release_publish. rewrite F, E, R. unfold enc_packet, add_wire. sk. rewrite Hio, Hc. cbn [N.eqb negb].
+  replace (0 =? 0) with true by reflexivity. cbn [negb]. unfold poll, ch_poll. sk. fold (cg s c). rewrite O. sk.
+  split; [eexists; rewrite find_put_same; split; reflexivity|]. split; auto. apply rxm_find_del_same.
+Qed.
+
+(* ... and PUBCOMP(id), arriving when that entry heads the queue, completes exactly this release *)
+Theorem completes_on_own_pubcomp s t x c id rest :
+  sink_inv s -> io s = 0 -> find_task t (tasks s) = Some x -> tst x = TAwaitComp c ->
+  inflight s = (id, Some c, 3) :: rest ->
+  let s' := ack_one s 3 id in
+  cg s' c = mkChan CFilled 3 true /\ io s' = 0 /\ inflight s' = rest /\ memN id (ids s') = false /\
+  exists x', find_task t (tasks (poll_task s' t)) = Some x' /\ tst x' = TDone ST_OK.
+Proof.
+  intros [ks I] Hio F E HI. assert (H : In (t, x) (tasks s)) by (apply find_task_In; auto; apply I).
+  destruct (i_task _ _ I t x H) as [SO _]. unfold st_ok in SO. rewrite E in SO. destruct SO as (K & RX & _).
+  destruct (i_inf _ _ I id (Some c) 3) as (Hid & _); [rewrite HI; now left|].
+  assert (RN : rxm_find id (rxm s) = None).
+  { destruct (rxm_find id (rxm s)) as [c0|] eqn:R; auto. exfalso. apply rxm_find_In in R.
+    destruct (i_rxm _ _ I id c0 R) as (_ & _ & _ & R4 & _ & R6). specialize (R4 Hio). rewrite HI in R4.
+    destruct R4 as [Q|R4].
+    - injection Q as <-. apply (R6 t x H). unfold trx. rewrite E. now left.
+    - pose proof (i_infnd _ _ I) as ND. rewrite HI in ND. cbn [map fst3 fst] in ND. inversion ND as [|? ? N1 _]; subst.
+      apply N1. apply in_map_iff. exists (id, Some c0, 3). auto. }
+  assert (NW : ~ In c (waiters s)).
+  { intros W. apply (i_ws _ _ I) in W as [W _]. congruence. }
+  cbv zeta. unfold ack_one. rewrite Hio. cbn [N.eqb negb orb]. replace (negb (0 =? 0)) with false by reflexivity.
+  replace ((3 =? 0) || (5 <? 3)) with false by reflexivity.
+  destruct (N.eqb_spec id 0); [contradiction|]. replace (((3 =? 4) || (3 =? 5)) && negb (client s)) with false by reflexivity.
+  unfold pkt_ack, pkt_ack_inner. rewrite HI, !N.eqb_refl. cbn [negb]. replace (3 =? 2) with false by reflexivity.
+  sk. rewrite RN. unfold send_opt. rewrite send_eq, wake_eq.
+  assert (CG : cg (set_waiters (set_chans (set_chans (set_ids (set_inflight s rest) (removeN id (ids s)))
+                 (fst (ch_send (chans s) c 3))) (fst (wake_go (fst (ch_send (chans s) c 3)) 1 (waiters s))))
+                 (snd (wake_go (fst (ch_send (chans s) c 3)) 1 (waiters s)))) c = mkChan CFilled 3 true).
+  { unfold cg. sk. destruct (wake_go_spec (waiters s) (fst (ch_send (chans s) c 3)) 1 (i_wsnd _ _ I)) as (p & w & W1 & W2 & W3 & _).
+    rewrite W3. destruct (existsb (Nat.eqb c) w) eqn:Q.
+    - apply existsb_eqb_In in Q. apply W2 in Q as [Q _]. exfalso. apply NW. rewrite W1. apply in_or_app. now left.
+    - rewrite ch_send_get, Nat.eqb_refl. fold (cg s c). now rewrite RX. }
+  sk. split; [exact CG|]. split; auto. split; auto. split; [apply memN_removeN|].
+  unfold poll_task. sk. rewrite F, E. unfold poll, ch_poll. unfold cg in CG. sk in CG. sk. rewrite CG. cbn [c_st].
+  eexists. sk. rewrite find_put_same. split; reflexivity.
+Qed.
